@@ -17,7 +17,8 @@ def _fresh(root, tree):
 
 def sweep(case, errnos, check, mode="th", collect=None, probes=False):
     """Recording run + one faulted run per (site, errno, mode).  `check(info)` yields violations."""
-    op, state, label = case
+    op, state, label = case[:3]
+    fscen.configure(case[3] if len(case) > 3 else None)
     c = fscen.ctx()
     root = os.path.join(common.scratch(), "fstore")
     init = fscen.init_tree(state)
@@ -64,7 +65,7 @@ def sweep(case, errnos, check, mode="th", collect=None, probes=False):
                            "errno": en, "mode": "persistent" if persistent else "one-off", "what": what}
                     det = dict(det)
                     det.update({"call": list(op), "state": state, "site": i, "site_op": list(sop), "errno": en,
-                                "persistent": persistent, "outcome": r.outcome[0]})
+                                "persistent": persistent, "outcome": r.outcome[0], "config": case[3] if len(case) > 3 else None})
                     out["violations"].append((sig, det))
     # existence / size probes are file-system operations too: every stat of the call, in turn, fails once with EIO
     # (os.path.isfile / exists / getsize sit on top of it)
@@ -195,7 +196,7 @@ def main(tier):
     global TIER
     TIER = tier
     rep = common.Report("C13", tier, "fault_enumeration")
-    cases = fscen.CASES + fscen.THOROUGH_CASES
+    cases = fscen.CASES + fscen.THOROUGH_CASES + fscen.LISTING_CASES
     runs = 0
     classes = set()
     per = {}
@@ -225,6 +226,7 @@ def replay(rep):
     r = rep["replay"]
     global TIER
     case = (tuple(r["call"]), r["state"], "replay")
+    fscen.configure(r.get("config"))
     c = fscen.ctx()
     root = os.path.join(common.scratch(), "fstore")
     env.install()
